@@ -189,7 +189,15 @@ impl InnerLocustDB {
     fn worker_loop(locustdb: Arc<InnerLocustDB>) {
         while locustdb.running.load(Ordering::SeqCst) {
             if let Some(task) = InnerLocustDB::await_task(&locustdb) {
-                task.execute();
+                // A panic inside a task must not end the worker thread: workers are never replaced, so
+                // each one lost reduces capacity for good, and once all are gone no request is answered
+                // again. The task is dropped below; once its last reference is gone so is its sender,
+                // and the caller receives `Canceled` instead of waiting forever.
+                let result =
+                    std::panic::catch_unwind(std::panic::AssertUnwindSafe(|| task.execute()));
+                if result.is_err() {
+                    log::error!("Task panicked on worker thread; the worker keeps running");
+                }
             }
         }
         drop(locustdb) // Make clippy happy
